@@ -400,8 +400,42 @@ fn answers_hash(cache: &cur::C, q: &Queries) -> u64 {
             None => add("\u{1}none"),
         }
     }
+    // keys that continue a known name by exactly the byte a placement puts behind the buffer: if a stored name is read
+    // one byte too far, these are the keys whose comparison changes
+    for f in PLACEMENT_FILLERS {
+        if *f >= 0x80 {
+            continue;
+        }
+        let ext = |n: &str| format!("{n}{}", *f as char);
+        for c in &q.u.known_classes {
+            let ce = ext(c);
+            add(cache.class(&ce).unwrap_or("\u{1}none"));
+            for m in q.u.known_methods.iter().take(6) {
+                let me = ext(m);
+                match cache.method(c, &me) {
+                    Some((a, b)) => {
+                        add(a);
+                        add(b);
+                    }
+                    None => add("\u{1}none"),
+                }
+                for fr in cache.frame_line(c, &me, q.lines.get(3).copied().unwrap_or(1), None) {
+                    add(fr.method);
+                }
+                for p in q.u.params.iter().take(6) {
+                    let pe = ext(p);
+                    for fr in cache.frame_params(c, m, &pe) {
+                        add(fr.method);
+                    }
+                    add("\u{4}");
+                }
+            }
+        }
+    }
     h
 }
+
+pub const PLACEMENT_FILLERS: &[u8] = &[0x00, 0xff, b'a', b'z', 0x7f];
 
 /// "Never reads outside the buffer", made observable without a sanitizer: the same bytes are placed inside a larger
 /// allocation twice, surrounded by different filler bytes; parse verdict and every answer must be identical. A read
@@ -409,7 +443,7 @@ fn answers_hash(cache: &cur::C, q: &Queries) -> u64 {
 /// difference between the two placements.
 fn check_placement(bytes: &[u8], q: &Queries, label: &str, st: &mut Stats) -> Check {
     let mut seen: Option<(bool, u64, u8)> = None;
-    for filler in [0x00u8, 0xff, b'a', b'z'] {
+    for &filler in PLACEMENT_FILLERS {
         let mut big = AlignedBuf::new(&vec![filler; bytes.len() + 64]);
         big.bytes_mut()[32..32 + bytes.len()].copy_from_slice(bytes);
         let slice = &big.bytes()[32..32 + bytes.len()];
@@ -431,7 +465,7 @@ fn check_placement(bytes: &[u8], q: &Queries, label: &str, st: &mut Stats) -> Ch
             }
         }
     }
-    st.class("placement check: same buffer inside four differently filled allocations");
+    st.class("placement check: same buffer inside five differently filled allocations");
     Ok(())
 }
 
@@ -477,6 +511,33 @@ pub fn check_case(c: &CorruptCase, st: &mut Stats) -> Check {
     }
     if st.want_sample() && h.num_members >= 2 {
         st.sample(|| json!({"mapping": crate::engine::show_bytes(&bytes), "corruptions": c.corr, "cache_len": valid.len()}));
+    }
+    // a string that claims to end just behind the end of the buffer: the file is cut right after one of its strings
+    // (which thereby becomes the last one) and that string's length prefix is raised by 1 and by 2
+    if c.corr.len() == 1 {
+        let (_, _, _, s_at, _) = layout::offsets(&h);
+        if let Ok(tab) = layout::string_table(&valid.bytes()[s_at..s_at + h.string_bytes as usize]) {
+            let entries: Vec<(u32, usize)> = tab.iter().map(|(k, v)| (*k, v.len())).collect();
+            let n = entries.len();
+            for pick in 0..n.min(3) {
+                let (off, len) = entries[(c.map.key as usize + pick * (n / 3 + 1)) % n];
+                if len == 0 || len >= 126 {
+                    continue;
+                }
+                let cut = s_at + off as usize + 1 + len;
+                for bump in [1u8, 2] {
+                    let mut hb = h;
+                    hb.string_bytes = (cut - s_at) as u32;
+                    let mut short = AlignedBuf::new(&valid.bytes()[..cut]);
+                    for (i, v) in [hb.magic, hb.version, hb.num_classes, hb.num_members, hb.num_members_by_params, hb.string_bytes].iter().enumerate() {
+                        short.bytes_mut()[i * 4..i * 4 + 4].copy_from_slice(&v.to_le_bytes());
+                    }
+                    short.bytes_mut()[s_at + off as usize] = len as u8 + bump;
+                    st.class("operator: last string claims to end behind the buffer");
+                    check_buffer(&short, &q, "string-overrun", fnv64(short.bytes()), st).map_err(|f| f.with(json!({"buffer_hex": hex(short.bytes())})))?;
+                }
+            }
+        }
     }
     let hsh = fnv64(buf.bytes());
     check_buffer(&buf, &q, &labels.join("+"), hsh, st).map_err(|mut f| {
